@@ -94,8 +94,12 @@ PROPS = {
         ],
     },
     "C10": {
-        "verus": ["c10_writebehind"],
+        "verus": ["c10_writebehind", "c10_coalesce"],
         "kani": [],
+        "native": [
+            {"name": "store_equals_batches_in_creation_order", "bin": "replay_c10", "crate": "replay", "tiers": ("quick", "thorough"),
+             "bound": "24 directed late-first histories + 400 seeded random histories: 1..9 batches of 0..5 operations (wide-column put/delete and key-of-set insert/remove over 1..3 keys x 1..3 elements, so that one batch often stages several operations on one slot), submitted out of creation order from 1..3 threads, 1..4 serializer workers, random serialization delays and physical grouping; after drop the recording store must equal applying the batches in creation order, each exactly once (real code, native execution, thread schedule not controlled)"},
+        ],
         "witness": witness.c10,
         "assumptions": [
             "concurrency is NOT decided: that serializer threads forward every task, the join order of Drop for WriteBehind, memory ordering of the shutdown flag, atomicity of fetch_add in WriteBufferPool::get_buffer",
@@ -104,7 +108,8 @@ PROPS = {
             "interface stand-ins: KvDatabase / KvWriteBatch / KvSerializationBuffer (3 methods used, with ghost tag/pending), crossbeam_channel (send succeeds; recv arbitrary), AtomicBool (load arbitrary), WriteBatch{epoch,active} and WriteBehind{serialize_sender} field subsets, WriteBatch::write_to_db",
             "std models: BinaryHeap (abstract-order view, peek/pop return a greatest element w.r.t. Ord), mem::replace/take/drop, derived Ord for Epoch",
             "termination of the two receive loops is not verified (depends on channel close)",
-            "not under contract: WriteBufferPool::get_buffer/return_buffer, after_commit_worker, TypedWideColumnWrites/TypedKeyOfSetWrites (hash maps of dyn entries), Drop for WriteBehind, WriteBehind::new",
+            "c10_coalesce: what one batch carries -- TypedWideColumnWrites::insert and TypedKeyOfSetWrites::insert are proved to be last-writer-wins steps per key resp. per (key, element), and the steps compose (lemma_wide_step / lemma_set_step) to 'the batch holds the net effect of the staged operations in issue order'; std's HashMap Entry API is a trusted in-unit model (rule R15: Entry/OccupiedEntry/VacantEntry over the reborrowed map with prophecy contracts); keys obey the hash-key laws (axiom_key_types)",
+            "not under contract: WideColumnWrites::put / KeyOfSetWrites::put (TypeId-keyed maps of Box<dyn WriteEntry>, downcast), write_to_db of the typed writes (HashMap iteration order: any order is equivalent because a batch holds at most one operation per slot -- proved above -- but the iteration itself is not under contract), WriteBufferPool::get_buffer/return_buffer, after_commit_worker, Drop for WriteBehind, WriteBehind::new",
         ],
     },
     "C11": {
